@@ -717,7 +717,16 @@ pub fn c04(rec: &mut Rec, rng: &mut Rng, thorough: bool) {
             let mut stream = format!("PUT /x HTTP/1.1\r\nContent-Length: {}\r\n\r\n", n).into_bytes();
             stream.extend_from_slice(&body);
             let boundary = stream.len();
-            stream.extend_from_slice(b"GET /next HTTP/1.1\r\nX-Pad: pppppppppppppppppppppppppppppppppppppp\r\n\r\n");
+            // (the follower is a plain GET, or — the limit is per request, not per connection or per queue — ANOTHER
+            // request with a body of up to L bytes while the first one has not been taken out yet)
+            if (l + dn) % 2 == 0 {
+                stream.extend_from_slice(b"GET /next HTTP/1.1\r\nX-Pad: pppppppppppppppppppppppppppppppppppppp\r\n\r\n");
+            } else {
+                let n2 = l.min(2000);
+                stream.extend_from_slice(format!("PUT /next HTTP/1.1\r\nContent-Length: {}\r\n\r\n", n2).as_bytes());
+                stream.extend_from_slice(&gen::body_bytes(rng, n2));
+                rec.count("payload:second-body-behind-unclaimed-first");
+            }
             // cuts anywhere but at the body / next-request boundary
             let cuts: Vec<usize> = gen::cuts(rng, &stream, 3).into_iter().filter(|c| *c != boundary).collect();
             let mut errs = vec![];
@@ -921,7 +930,15 @@ pub fn c06(rec: &mut Rec, rng: &mut Rng, thorough: bool) {
                     // input arrives while output is queued (no Expect header, so the read itself queues nothing): a
                     // delivered request, a rejected one, would-block, end of stream — none of them may touch the output side
                     let had = d.pending_write();
-                    match rng.below(5) {
+                    match rng.below(8) {
+                        5 => {
+                            d.rerr(rec, *rng.pick(&[libc::EAGAIN, libc::EINTR, libc::ECONNRESET]));
+                        }
+                        6 | 7 => {
+                            // the peer shut down its writing side (it may well go on reading): queued output stays pending
+                            d.eof(rec, 0);
+                            rec.count("c06:eof-with-output-queued");
+                        }
                         0 => {
                             d.recv(rec, b"GET /in HTTP/1.1\r\n\r\n", 0);
                         }
